@@ -146,6 +146,9 @@ structure Node where
   nextGen : Nat := 1
   /-- session ids of the `ReservedSession` guards that are still alive (handshakes in their last leg) -/
   pending : List Nat := []
+  /-- `ResumableSessions::store_failed`: the last store of the resumption cache failed - the STORED
+  blob might hold records that the cache has dropped (retried before `AddNOC` makes a new fabric) -/
+  resumStale : Bool := false
 deriving Repr, DecidableEq, Inhabited
 
 inductive Op
@@ -317,13 +320,22 @@ def markDeferred (n : Node) : Node :=
   | some a => { n with fs := some { a with deferred := true } }
   | none => n
 
+/-- `MatterState::store_resumption`: store the resumption cache now and remember whether that
+failed (`false` = the store call failed) -/
+def storeResum (n : Node) : Node × Bool :=
+  let (n, bad) := kvTick n
+  if bad then ({ n with resumStale := true }, false)
+  else (kvCommit { n with resumStale := false } { n.kv with resum := .recs n.resum }, true)
+
+/-- `MatterState::retry_resumption_store`: store the cache if its last store failed -/
+def retryResum (n : Node) : Node × Bool :=
+  if n.resumStale then storeResum n else (n, true)
+
 /-- `MatterState::purge_resumption_for_fabric`: drop the records of a gone fabric and store the
 purged cache at once - also when the in-memory cache held none of them (the STORED blob might: an
 earlier store of the purged cache failed, or the records were evicted).  `false` = the store call failed. -/
 def purgeResum (n : Node) (idx : Nat) : Node × Bool :=
-  let n := { n with resum := n.resum.filter (fun r => r.fab ≠ idx) }
-  let (n, bad) := kvTick n
-  if bad then (n, false) else (kvCommit n { n.kv with resum := .recs n.resum }, true)
+  storeResum { n with resum := n.resum.filter (fun r => r.fab ≠ idx) }
 
 /-- the fabric part of `FailSafe::expire`:
 `if fabrics.get(fab_idx).is_some() { fabrics.remove(fab_idx)? }; fabrics.add_load(fab_idx, kv)?` -/
@@ -460,6 +472,59 @@ def delFabricKeys (hi : Nat) : Nat → Nat → KV → List KV → KV × List KV
       delFabricKeys hi (i + 1) fuel cur' (cur' :: acc)
     else delFabricKeys hi (i + 1) fuel cur acc
 
+/-- `FailSafe::is_adding_fabric` -/
+def addingFabric (n : Node) (idx : Nat) : Bool :=
+  match n.fs with
+  | some a => a.fab == idx && a.flags.addNoc
+  | none => false
+
+/-- the undo of the first write of a CommissioningComplete whose second write failed: the stored
+record of a fabric added under this fail-safe is removed again (a failure of that is only logged) -/
+def undoAdded (n : Node) (idx : Nat) : Node :=
+  if addingFabric n idx then (removeFabricKey n idx).1 else n
+
+/-- `NocHandler::handle_add_noc` (noc.rs:479) after the retry of a failed resumption-cache store -/
+def addNoc (cfg : Cfg) (n : Node) (sid : Nat) (mode : Mode) (ca fid node subj ser : Nat) : Node × Status :=
+  match checkArmed n mode with
+  | some e => (n, .err e)
+  | none =>
+    match n.fs with
+    | none => (n, .err "FailSafeRequired")
+    | some a =>
+      match checkState a mode (fun f => f.root && f.addCsr) (fun f => f.addNoc || f.updCsr || f.updNoc) true with
+      | some e => (n, .err e)
+      | none =>
+        -- failsafe.rs `add_noc`: the context holds deferred changes of the existing fabric it is
+        -- bound to - no re-binding
+        if a.fab ≠ 0 && a.deferred then (n, .err "Busy")
+        else if !isNodeId subj then (n, .err "NocInvalidAdminSubject")
+        else if ca ≠ n.staged then (n, .err "NocInvalidNoc")
+        else if n.fabrics.any (fun f => f.fid = fid && f.ca = n.staged) then (n, .err "NocFabricConflict")
+        else
+          let m := maxIdx n.fabrics
+          -- `add_with_post_init`: max + 1, or the first free index once 254 is taken
+          let idx? : Option Nat :=
+            if m < 254 then some (m + 1)
+            else (List.range 255).find? (fun i => 1 ≤ i && !hasFabric n i)
+          match idx? with
+          | none => (n, .err "NocFabricTableFull")
+          | some idx =>
+            if n.fabrics.length ≥ cfg.maxFabrics then (n, .err "NocFabricTableFull")
+            else
+              let f : Fabric := { idx := idx, gen := n.nextGen, ca := n.staged, fid := fid, node := node,
+                                  ser := ser, acl := [subj], grp := [], label := 0 }
+              let n := { n with fabrics := n.fabrics ++ [f], nextGen := n.nextGen + 1,
+                                fs := some { a with fab := idx, flags := { a.flags with addNoc := true } } }
+              -- noc.rs:543: a PASE session is promoted to the new fabric (once)
+              match mode with
+              | .pase 0 =>
+                ({ n with sessions := n.sessions.map (fun s => if s.id = sid then { s with mode := .pase idx, gen := f.gen } else s) },
+                 .okIdx idx)
+              | .pase _ =>
+                -- scopeguard (noc.rs:530): the fabric is removed again, the fail-safe context stays changed
+                ({ n with fabrics := n.fabrics.filter (fun g => g.idx ≠ idx) }, .err "Invalid")
+              | .case _ => (n, .okIdx idx)
+
 /-- the part of a session-borne command that runs after the IM prologue -/
 def sessOp (cfg : Cfg) (n : Node) (sid : Nat) (mode : Mode) : Op → Node × Status
   | .openW _ =>
@@ -507,45 +572,11 @@ def sessOp (cfg : Cfg) (n : Node) (sid : Nat) (mode : Mode) : Op → Node × Sta
         | some e => (n, .err e)
         | none => ok { n with staged := ca, fs := some { a with flags := { a.flags with root := true } } }
   | .addnoc _ ca fid node subj ser =>
-    match checkArmed n mode with
-    | some e => (n, .err e)
-    | none =>
-      match n.fs with
-      | none => (n, .err "FailSafeRequired")
-      | some a =>
-        match checkState a mode (fun f => f.root && f.addCsr) (fun f => f.addNoc || f.updCsr || f.updNoc) true with
-        | some e => (n, .err e)
-        | none =>
-          -- failsafe.rs `add_noc`: the context holds deferred changes of the existing fabric it is
-          -- bound to - no re-binding
-          if a.fab ≠ 0 && a.deferred then (n, .err "Busy")
-          else if !isNodeId subj then (n, .err "NocInvalidAdminSubject")
-          else if ca ≠ n.staged then (n, .err "NocInvalidNoc")
-          else if n.fabrics.any (fun f => f.fid = fid && f.ca = n.staged) then (n, .err "NocFabricConflict")
-          else
-            let m := maxIdx n.fabrics
-            -- `add_with_post_init`: max + 1, or the first free index once 254 is taken
-            let idx? : Option Nat :=
-              if m < 254 then some (m + 1)
-              else (List.range 255).find? (fun i => 1 ≤ i && !hasFabric n i)
-            match idx? with
-            | none => (n, .err "NocFabricTableFull")
-            | some idx =>
-              if n.fabrics.length ≥ cfg.maxFabrics then (n, .err "NocFabricTableFull")
-              else
-                let f : Fabric := { idx := idx, gen := n.nextGen, ca := n.staged, fid := fid, node := node,
-                                    ser := ser, acl := [subj], grp := [], label := 0 }
-                let n := { n with fabrics := n.fabrics ++ [f], nextGen := n.nextGen + 1,
-                                  fs := some { a with fab := idx, flags := { a.flags with addNoc := true } } }
-                -- noc.rs:543: a PASE session is promoted to the new fabric (once)
-                match mode with
-                | .pase 0 =>
-                  ({ n with sessions := n.sessions.map (fun s => if s.id = sid then { s with mode := .pase idx, gen := f.gen } else s) },
-                   .okIdx idx)
-                | .pase _ =>
-                  -- scopeguard (noc.rs:530): the fabric is removed again, the fail-safe context stays changed
-                  ({ n with fabrics := n.fabrics.filter (fun g => g.idx ≠ idx) }, .err "Invalid")
-                | .case _ => (n, .okIdx idx)
+    -- noc.rs `handle_add_noc`: a store of the resumption cache that failed is retried before a new
+    -- fabric - which might get the index of a fabric that is gone - comes into being
+    match retryResum n with
+    | (n, false) => (n, .err "NoSpace")
+    | (n, true) => addNoc cfg n sid mode ca fid node subj ser
   | .updnoc _ node ser =>
     match checkArmed n mode with
     | some e => (n, .err e)
@@ -618,7 +649,8 @@ def sessOp (cfg : Cfg) (n : Node) (sid : Nat) (mode : Mode) : Op → Node × Sta
   | .complete _ =>
     -- gen_comm.rs:491: the fabric, then the networks are stored FIRST; only then the fail-safe is
     -- disarmed, the window closed and the PASE sessions dropped.  A failing store answers the error
-    -- with the fail-safe still armed.
+    -- with the fail-safe still armed; when it is the second one, the record of a fabric that was
+    -- added under this fail-safe (it had none before) is taken out of the store again.
     match checkArmed n mode with
     | some e => (n, .err e)
     | none =>
@@ -630,7 +662,7 @@ def sessOp (cfg : Cfg) (n : Node) (sid : Nat) (mode : Mode) : Op → Node × Sta
           | (n, false) => (n, .err "NoSpace")
           | (n, true) =>
             match storeNets { n with managed := true } with
-            | (n1, false) => ({ n1 with managed := n.managed }, .err "NoSpace")
+            | (n1, false) => (undoAdded { n1 with managed := n.managed } f.idx, .err "NoSpace")
             | (n1, true) =>
               ok { n1 with fs := none, bc := 0, window := none, sessions := removePase n1.sessions none }
   | .rmfab _ idx =>
@@ -669,6 +701,27 @@ def sessOp (cfg : Cfg) (n : Node) (sid : Nat) (mode : Mode) : Op → Node × Sta
           | (n, true) => ok n
           | (n, false) => (n, .err "NoSpace")
   | _ => (n, .err "bad")
+
+/-- `Matter::factory_reset` (lib.rs, as repaired) + the network part of `InteractionModelState::reset_persist`
+(im.rs:181), in the order of the harness -/
+def factoryReset (n : Node) : Node × Status :=
+  -- lib.rs `Matter::factory_reset` (as repaired): the sessions of every fabric go first
+  -- (`remove_for_fabric` for each index 1..255); then `Fabrics::reset_persist` - memory fabrics, then
+  -- one `remove` per fabric key 1..255 - and the other parts. A failing store call ends the part it
+  -- belongs to, the remaining parts are reset all the same (the first error is answered). An
+  -- injected fault (at most the third call) therefore hits a fabric key: the keys 1 .. failIn-1 are
+  -- removed, the call for key `failIn` fails
+  let hi := if n.failIn ≠ 0 then n.failIn else 256
+  let st : Status := if n.failIn ≠ 0 then .err "NoSpace" else .ok
+  let (kv, hist) := delFabricKeys hi 1 256 n.kv n.hist
+  -- the resumption cache: memory, then the key
+  let n := { n with fabrics := [], sessions := n.sessions.filter (fun s => s.mode.fab = 0),
+                    kv := kv, hist := hist, failIn := 0, resum := [], resumStale := false }
+  let n := if n.kv.resum ≠ .absent then kvCommit n { n.kv with resum := .absent } else n
+  -- the network part of the reset (im.rs:181)
+  let n := { n with nets := [], managed := false }
+  let n := if n.kv.nets.isSome then kvCommit n { n.kv with nets := none } else n
+  (n, st)
 
 def isSessOp : Op → Option Nat
   | .openW s | .arm s _ | .csr s _ | .root s _ | .addnoc s _ _ _ _ _ | .updnoc s _ _ | .acl s _
@@ -757,8 +810,10 @@ def step (cfg : Cfg) (n : Node) (op : Op) : Node × Status :=
       | (n, some e) => (n, .err e)
       | (n, none) => ok n
     | .flush =>
-      let (n, bad) := kvTick n
-      if bad then (n, .err "NoSpace") else ok (kvCommit n { n.kv with resum := .recs n.resum })
+      -- lib.rs `run_persist_resumption`
+      match storeResum n with
+      | (n, false) => (n, .err "NoSpace")
+      | (n, true) => ok n
     | .restart => ok (restartFrom n n.kv n.hist)
     | .crash k =>
       let k := min k n.hist.length
@@ -771,24 +826,7 @@ def step (cfg : Cfg) (n : Node) (op : Op) : Node × Status :=
     | .corrupt =>
       let kv := { n.kv with resum := .garbage }
       ok (restartFrom n kv (kv :: n.hist))
-    | .freset =>
-      -- lib.rs:621: memory fabrics first, then one `remove` per fabric key 1..255, then the other
-      -- keys; an injected fault (at most the third call) therefore hits a fabric key
-      let n := { n with fabrics := [] }
-      if n.failIn ≠ 0 then
-        -- keys 1 .. failIn-1 are removed, the call for key `failIn` fails
-        let (kv, hist) := delFabricKeys n.failIn 1 256 n.kv n.hist
-        -- the network part of the reset still runs in the harness (im.rs:181)
-        let n := { n with kv := kv, hist := hist, failIn := 0, nets := [], managed := false }
-        let n := if n.kv.nets.isSome then kvCommit n { n.kv with nets := none } else n
-        (n, .err "NoSpace")
-      else
-        let (kv, hist) := delFabricKeys 256 1 256 n.kv n.hist
-        let n := { n with kv := kv, hist := hist, resum := [] }
-        let n := if n.kv.resum ≠ .absent then kvCommit n { n.kv with resum := .absent } else n
-        let n := { n with nets := [], managed := false }
-        let n := if n.kv.nets.isSome then kvCommit n { n.kv with nets := none } else n
-        ok n
+    | .freset => factoryReset n
     | _ => (n, .err "bad")
 
 /-! ## canonical dump (must equal `World::dump` of the harness) -/
